@@ -989,6 +989,15 @@ def do_lib(w, op, p):
     from optimum.quanto.tensor import quantize_activation, quantize_weight
 
     t = archs.gen_payload(op["shape"], DTYPES[op.get("dtype", "float32")], op["seed"], op.get("cls", "noise"), op.get("mag", 1.0))
+    view = op.get("view")
+    if view == "t" and t.ndim == 2:
+        t = t.t()  # non-contiguous
+    elif view == "strided":
+        base = torch.zeros(tuple(t.shape[:-1]) + (t.shape[-1] * 2,), dtype=t.dtype)
+        base[..., ::2] = t
+        t = base[..., ::2]
+    elif view == "0d":
+        t = t.reshape(-1)[0].clone()
     dig = R.input_digest(t)
     qt = QT(op.get("qtype", "qint8"))
     fn = op["fn"]
@@ -998,6 +1007,10 @@ def do_lib(w, op, p):
                 out = quantize_weight(t, qt, op.get("axis", 0), op.get("group_size"))
             elif fn == "quantize_activation":
                 sc = absmax_scale(t, qt)
+                if op.get("scale") == "one":
+                    sc = torch.ones((), dtype=t.dtype)  # the value scales have before any calibration
+                elif op.get("scale") == "fixed":
+                    sc = torch.tensor(0.0625, dtype=t.dtype)
                 sdig = R.input_digest(sc)
                 out = quantize_activation(t, qt, sc)
                 if R.input_digest(sc) != sdig:
